@@ -346,6 +346,10 @@ func c12Judge(r *h.Result, j c12Judged, tier string, confirm bool) {
 		if o.Status != 0 {
 			r.Count(fmt.Sprintf("status:%dxx", o.Status/100))
 		}
+		if o.Outcome == "flood" {
+			r.Violate("C12/hang/"+cs.Endpoint+"/closed-channel-spin", fmt.Sprintf("%s %s: the service side has ended (query refused) but the request never ends: %s", cs.Method, c12Short(cs.Path), o.Dump),
+				replay(map[string]any{"outcome": o}))
+		}
 		if o.HandlerPanic != "" {
 			r.Count("outcome:handler-panic")
 			r.Violate("C12/crash/"+cs.Endpoint+"/handler-"+c12ClassOf(o.HandlerPanic), fmt.Sprintf("%s %s: the handler panics (%s at %s) and is only caught by net/http: the connection is dropped without an HTTP response", cs.Method, c12Short(cs.Path), o.HandlerPanic, o.Dump),
@@ -446,6 +450,12 @@ func c12(r *h.Result, rng *h.Rng, tier string, replay string) error {
 				"status": j.o.Status, "outcome": j.o.Outcome, "queries": j.o.Queries, "body_head": j.o.BodyHead})
 		}
 	}
+	// the client goes away after k chunks, every endpoint (c12gone.go)
+	if os.Getenv("C12_ONLY") == "" || os.Getenv("C12_ONLY") == "gone" {
+		if err := c12Gone(r, rng.Fork(), tier); err != nil {
+			return err
+		}
+	}
 	// model/implementation correspondence for the bookkeeping (FixPeriodPlanner, aggregator, limit, parameters)
 	if err := c12Stages(r, rng.Fork(), tier); err != nil {
 		return err
@@ -504,6 +514,9 @@ func c12Corpus() []*c12Case {
 		// A12
 		win(&c12Case{Endpoint: "tempo/trace", Method: "GET", Class: "corpus A12 empty payload",
 			Path: "/api/traces/0123456789abcdef0123456789abcdef", Answers: []c12Answer{{Shape: "spans-empty-otlp", N: 1, Seed: 1}}}),
+		// a stored OTLP attribute without a value: the JSON rendering dereferences it inside the handler's receive loop
+		win(&c12Case{Endpoint: "tempo/trace", Method: "GET", Class: "corpus attribute without value",
+			Path: "/api/traces/0123456789abcdef0123456789abcdef", Answers: []c12Answer{{Shape: "spans-otlp-novalue", N: 3, Seed: 1}}}),
 		// A35
 		win(&c12Case{Endpoint: "tempo/trace", Method: "GET", Class: "corpus A35 long id",
 			Path: "/api/traces/" + strings.Repeat("a", 66), Answers: one(1)}),
